@@ -279,6 +279,52 @@ pub fn execute(scn: &PairScn, ctx: &mut Ctx) {
             }
         }
     }
+    // the complete reader after seek(k), and after a typed access that fails followed by seek: the
+    // pairs from k on, shape i with row i (histories without a failing row only)
+    if bad == "no-failing-row" && n >= 2 {
+        let w3 = World::with_data(Plan::default(), shp.clone(), shx.clone(), dbf.clone());
+        let r = guarded(|| -> Result<Vec<(usize, Vec<(Geom, Option<i64>)>)>, shapefile::Error> {
+            let sr = ShapeReader::with_shx(Stack::reader(&w3, SHP, StackCfg::Direct), Stack::reader(&w3, SHX, StackCfg::Direct))?;
+            let dr = dbase::Reader::new(Stack::reader(&w3, DBF, StackCfg::Direct))?;
+            let mut rd = Reader::new(sr, dr);
+            let mut out = Vec::new();
+            let other_is_point = ty != 1;
+            for k in [1usize, n - 1, 0, n / 2] {
+                if k > 0 {
+                    // a typed pair iteration of another type fails at entry k-1 ...
+                    rd.seek(k - 1)?;
+                    if other_is_point {
+                        let _ = rd.iter_shapes_and_records_as::<shapefile::Point, dbase::Record>().next();
+                    } else {
+                        let _ = rd.iter_shapes_and_records_as::<shapefile::Polyline, dbase::Record>().next();
+                    }
+                }
+                // ... then seek(k) and read on
+                rd.seek(k)?;
+                let mut got = Vec::new();
+                for item in rd.iter_shapes_and_records().take(n + 2) {
+                    let (s, rec) = item?;
+                    got.push((capture(&s), match rec.get("idx") { Some(dbase::FieldValue::Integer(i)) => Some(*i as i64), _ => None }));
+                }
+                out.push((k, got));
+            }
+            Ok(out)
+        });
+        match r {
+            Err(p) => ctx.fail("C08", "panic", p.site(), format!("complete reader with seek: {}", p.text())),
+            Ok(Err(e)) => ctx.fail("C08", "reader-pairs", "after-seek", format!("history {}: the complete reader failed after seek: {:?}", hist, classify(&e))),
+            Ok(Ok(runs)) => {
+                for (k, got) in runs {
+                    let ok = got.len() == n - k && got.iter().enumerate().all(|(t, (g, idx))| diff_read(&geoms[expected[k + t]].normalised_for_read(), g, k + t, &never).is_none() && *idx == Some((k + t) as i64));
+                    if !ok {
+                        ctx.fail("C08", "reader-pairs", "after-seek", format!("history {}: after a failed typed access and seek({}) the complete reader returned {:?}", hist, k, got.iter().map(|(g, i)| format!("{}#{:?}", g.short(), i)).collect::<Vec<_>>()));
+                        break;
+                    }
+                }
+            }
+        }
+        ctx.stats.absorb_world(&w3.borrow());
+    }
     if scn.path && bad == "no-failing-row" {
         path_route(ctx, scn, &shapes, &geoms, ty);
     }
